@@ -129,5 +129,65 @@ def check(pm: ProgramModel, ctx: Ctx) -> None:
               bad="; ".join(bad_sound[:2]))
     ctx.check(not bad_mand, "C15-GUARD", "merge-mandatory", where,
               "every mandatory child shares its parent's set", bad="; ".join(bad_mand[:2]))
+    whole(pm, ctx, mb, entry)
     check_wrapper(pm, ctx, "C15-WRAP", "FMAtomicSets", "get_atomic_sets", "fm_atomic_sets")
     ctx.floor(rule, "step evaluations", n_steps, 60)
+
+
+def whole(pm: ProgramModel, ctx: Ctx, mb: ModelBuilder, entry: Any) -> None:
+    """Whole function on abstract trees: partition, no empty set, sets connected through forced
+    relations only, mandatory children with their parent."""
+    from .c16 import TREES, build_tree
+    from ..model import rich_model
+    from ..roundtrip import features as all_features
+    models = {k: mb.model(build_tree(mb, spec), []) for k, spec in TREES.items()}
+    models["rich"] = rich_model(mb)
+    for name, m in models.items():
+        it = Interp(pm)
+        try:
+            sets = it.call(entry, [m])
+        except AbsRaise as exc:
+            sets = ("raise", exc.what)
+        feats = all_features(m)
+        bad = []
+        if not isinstance(sets, list) or not all(isinstance(s, (set, frozenset, list)) for s in sets):
+            bad.append(f"result is {str(sets)[:80]}")
+        else:
+            count = {id(f): 0 for f in feats}
+            for s in sets:
+                if len(s) == 0:
+                    bad.append("an empty set")
+                for f in s:
+                    if id(f) in count:
+                        count[id(f)] += 1
+                    else:
+                        bad.append(f"a non-feature {f!r}")
+            wrong = [f._f["name"] for f in feats if count[id(f)] != 1]
+            if wrong:
+                bad.append(f"features {wrong[:4]} are not in exactly one set")
+            for f in feats:
+                p = f._f["parent"]
+                if p is None:
+                    continue
+                rel = next(r for r in p._f["relations"] if any(c is f for c in r._f["children"]))
+                d = D(int(rel._f["card_min"]), int(rel._f["card_max"]), len(rel._f["children"]))
+                same = any(any(x is f for x in s) and any(x is p for x in s) for s in sets)
+                if kind(d) == "mandatory" and not same:
+                    bad.append(f"mandatory child {f._f['name']} is not with its parent")
+            for s in sets:
+                members = list(s)
+                for f in members:
+                    # every member other than the set's top is tied to its parent by a forced relation
+                    p = f._f["parent"]
+                    if p is not None and any(x is p for x in members):
+                        rel = next(r for r in p._f["relations"] if any(c is f for c in r._f["children"]))
+                        d = D(int(rel._f["card_min"]), int(rel._f["card_max"]), len(rel._f["children"]))
+                        if not forced_all(d):
+                            bad.append(f"{f._f['name']} shares a set with its parent through relation {d}, which "
+                                       f"does not force it")
+                tops = [f for f in members if f._f["parent"] is None or not any(x is f._f["parent"] for x in members)]
+                if len(tops) > 1:
+                    bad.append(f"set {sorted(x._f['name'] for x in members)} is not connected in the tree")
+        ctx.check(not bad, "C15-WHOLE", f"tree:{name}", loc(entry.unit.path, entry.node),
+                  f"atomic sets of abstract tree '{name}' partition it into forced-connected sets",
+                  bad=f"atomic sets of abstract tree '{name}': " + "; ".join(bad[:3]))
